@@ -37,6 +37,21 @@ from ..report import Instance, Report
 from . import game
 from .harness import parallel_map
 
+KNOWN_CALLS = {"fn:v", "fn:w", "fn:vt", "fn:wt", "math.exp", "math.sqrt", "$logistic"}
+
+
+def _calls_in(p, out: set) -> None:
+    def walk(x):
+        if isinstance(x, tuple):
+            if len(x) >= 2 and x[0] == "call" and isinstance(x[1], str):
+                out.add(x[1])
+            for y in x:
+                walk(y)
+
+    for mono in p:
+        walk(mono)
+
+
 BETA = ("param", "model.beta")
 KAPPA = ("param", "model.kappa")
 TAU = ("param", "g.tau")
@@ -197,6 +212,14 @@ def _job(job) -> List[Dict[str, Any]]:
                     if s is None:
                         if verdict == "HOLDS":
                             verdict, msg = "UNDECIDED", f"the {name} of player {who[1]} of team {who[0]} could not be compared with the closed form"
+                        continue
+                    calls: set = set()
+                    _calls_in(got, calls)
+                    foreign = sorted(x for x in calls if x not in KNOWN_CALLS)
+                    if foreign:
+                        if verdict == "HOLDS":
+                            verdict, msg = "UNDECIDED", (f"the code's term for the {name} of player {who[1]} of team {who[0]} is built from functions the comparison does not know ({foreign}): "
+                                                         "not comparable with the transcribed closed form")
                         continue
                     verdict = "VIOLATED"
                     msg = f"the posterior {name} of player {who[1]} of team {who[0]} is not the closed form; code minus closed form = {show(p_add(got, wp, -1), 260)}"
